@@ -327,8 +327,9 @@ def ref_cycle(levels, R, P, nsweeps, u0):
 def part_E(ck, rng, n):
     """one real multilevel iteration (2-3 levels, level-dependent nsweeps / QI / problem coefficients) from the spread
     iterate equals the multigrid-in-time iteration in explicit operator form (independent exact re-implementation)"""
+    mcases = []
     for i in range(n):
-        nl = rng.choice([2, 3, 3])
+        nl = rng.choice([2, 3, 3, 4] if i % 7 == 0 else [2, 3, 3])
         nn = sorted([rng.choice([2, 3, 4]) for _ in range(nl)], reverse=True)
         nsw = [rng.choice([1, 2, 3]) for _ in range(nl - 1)] + [1]
         c = rfrac(rng, -2, 2)
@@ -352,6 +353,7 @@ def part_E(ck, rng, n):
                 lv.append(dict(M=M, dt=L.params.dt, lam=L.prob.lam[0], c=L.prob.c[0],
                                Q=[[L.sweep.coll.Qmat[a, b] for b in range(M + 1)] for a in range(M + 1)],
                                QI=[[L.sweep.QI[a, b] for b in range(M + 1)] for a in range(M + 1)],
+                               nodes=[F(0)] + [F(x) for x in L.sweep.coll.nodes],
                                t=[F(0)] + [L.params.dt * F(x) for x in L.sweep.coll.nodes]))
             R, P = [], []
             for k in range(nl - 1):
@@ -377,6 +379,58 @@ def part_E(ck, rng, n):
                                   level=l, deviation=float(dev)),
                              match={'kind': 'iteration_matrix', 'levels': nl})
                 break
+        # ---- the same iteration through the Coq model Model/MultiLevel.vcycle (kernel-evaluated, exact):
+        #      fine level: no pre-sweeps, nsweeps[0] post-sweeps (IT_FINE comes after IT_UP); middle levels nsweeps[l] before
+        #      restricting and after prolonging; coarsest level one sweep
+        def mlevel(l):
+            d = lv[l]
+            pre = 0 if l == 0 else (1 if l == nl - 1 else nsw[l])
+            post = nsw[0] if l == 0 else (0 if l == nl - 1 else nsw[l])
+            return ('{| ml_M := %d%%nat; ml_dt := %s; ml_nodes := %s; ml_Q := %s; ml_QI := %s; '
+                    'ml_prob := {| p_dim := 1%%nat; p_lam := %s; p_mu := %s; p_c := %s |}; ml_pre := %d%%nat; ml_post := %d%%nat |}'
+                    % (d['M'], qc(d['dt']), qcl(d['nodes']), qcm(d['Q']), qcm(d['QI']), qcm([[d['lam']]]), qcm([[0]]), qcm([[d['c']]]), pre, post))
+
+        def mxfer(k):
+            Mf, Mc = lv[k]['M'], lv[k + 1]['M']
+            return ('{| mx_df := 1%%nat; mx_dc := 1%%nat; mx_Rs := %s; mx_Ps := %s; mx_Rcoll := %s; mx_Pcoll := %s |}'
+                    % (qcm([[1]]), qcm([[1]]), qcm([[0] * (Mf + 1)] + [[0] + list(r) for r in R[k]]), qcm([[0] * (Mc + 1)] + [[0] + list(r) for r in P[k]])))
+        pred = [e for e in log if e['cb'] == 'post_predict'][0]['levels'][0]
+        expected = [v[0] for v in post['levels'][0]['u'][1:]] + [v[0] for v in post['levels'][0]['f'][1:]]
+        mcases.append((dict(levels=nl, nodes=nn, nsweeps=nsw, QI=[x['QI'] for x in levels_cfg], lam=[str(x) for x in lams], c=str(c), dt=str(dt), u0=str(u0)),
+                       '({| m_t0 := %s; m_fine := %s; m_rest := %s; m_u := %s; m_f := %s |}, %s)'
+                       % (qc(F(0)), mlevel(0), coq_list(['(%s, %s)' % (mxfer(k), mlevel(k + 1)) for k in range(nl - 1)]),
+                          qcm(pred['u']), qcm(pred['f']), qcl(expected))))
+    return mcases
+
+
+def eval_mcases(ck, mcases):
+    import concurrent.futures as cf
+    chunk = 2
+    files = []
+    for ci in range(0, len(mcases), chunk):
+        body = ['From Coq Require Import List ZArith QArith Qcanon.',
+                'From PySDC Require Import Model.Sweep Model.SweepExec Model.Transfer Model.TransferExec Model.MultiLevel Model.MultiLevelExec.',
+                'Import ListNotations.', 'Definition cases : list (mcase * list Qc) := [', ';\n'.join(c[1] for c in mcases[ci:ci + chunk]), '].',
+                'Eval vm_compute in map check_mcase cases.']
+        files.append(ck.write_gen('MCases_%03d.v' % (ci // chunk), '\n'.join(body) + '\n'))
+    with cf.ThreadPoolExecutor(max_workers=14) as pool:
+        outs = list(pool.map(lambda f: ck.coqc(f, timeout=900), files))
+    results = []
+    for f, (rc, out) in zip(files, outs):
+        if rc != 0:
+            ck.obligation('model evaluation ' + f.split('/')[-1], False, out[-800:])
+            ck.violation('generated multi-level cases do not compile/evaluate', {'file': f, 'log': out[-3000:]}, match={'kind': 'gen'}, no_input=True)
+            return
+        results += parse_coq_value(eval_outputs(out)[0])
+    nd = 0
+    for (meta, _), r in zip(mcases, results):
+        ck.traces += 1
+        if r != -1:
+            nd += 1
+            ck.violation('Model/MultiLevel.vcycle and one real multi-level iteration of controller_nonMPI differ at observable #%d (exact arithmetic)' % r,
+                         dict(meta, correspondence='Model/MultiLevelExec.m_run vs controller_nonMPI it_down/it_coarse/it_up/it_fine', first_differing_observable=r),
+                         match={'kind': 'vcycle_correspondence', 'levels': meta['levels']}, no_input=True)
+    ck.obligation('exact correspondence Model/MultiLevel.vcycle = one real multi-level iteration on %d cases (2-4 levels)' % len(mcases), nd == 0)
 
 
 def part_D(ck, rng, thorough):
@@ -469,7 +523,8 @@ def run(ck):
     thorough = ck.tier == 'thorough'
     ck.rule = ('A/B: seeded level pairs (node counts, quadrature types, space dims, finter, inherited tau, exact-rational vs float-image Rcoll/Pcoll); '
                'C: exact 2-3 level controller iterations started at the collocation solution; D: float transfer classes; distinct = configuration tuple')
-    ck.check_props(required=['C10_coarse_defect_is_restricted_fine_defect', 'C10_prolong_zero_correction', 'C10_two_level_cycle_fixed_point'])
+    ck.check_props(required=['C10_coarse_defect_is_restricted_fine_defect', 'C10_prolong_zero_correction', 'C10_two_level_cycle_fixed_point',
+                             'C10_multilevel_cycle_fixed_point'])
     cases = part_AB(ck, rng, 1500 if thorough else 60)
     ck.log('A/B: %d real restrict/prolong cases run' % len(cases))
     chunk = 5
@@ -500,7 +555,9 @@ def run(ck):
     ck.log('model evaluated')
     part_C(ck, rng, 1000 if thorough else 40)
     ck.log('part C done')
-    part_E(ck, rng, 600 if thorough else 60)
+    mcases = part_E(ck, rng, 600 if thorough else 60)
     ck.log('part E done')
+    eval_mcases(ck, mcases)
+    ck.log('vcycle model evaluated')
     part_D(ck, rng, thorough)
     ck.log('part D done')
